@@ -95,15 +95,49 @@ func (a *clusterACLs) allowed(principal, host, resourceName string, resourceType
 }
 
 func (a *clusterACLs) anyAllowed(principal, host string, resourceType kmsg.ACLResourceType, op kmsg.ACLOperation) bool {
+	// Kafka's authorizeByResourceType: a DENY on the literal "*" denies; an
+	// ALLOW pattern counts only if no DENY literal of the same name and no
+	// DENY prefix of its name exists. Implied operations do not apply here.
+	var allows, denies []*acl
 	for i := range a.acls {
 		acl := &a.acls[i]
 		if acl.resourceType != resourceType ||
 			!acl.matchesPrincipal(principal) ||
 			!acl.matchesHost(host) ||
-			!acl.matchesOp(op) {
+			(acl.operation != op && acl.operation != kmsg.ACLOperationAll) {
 			continue
 		}
-		if acl.permission == kmsg.ACLPermissionTypeAllow {
+		switch acl.permission {
+		case kmsg.ACLPermissionTypeDeny:
+			if acl.pattern == kmsg.ACLResourcePatternTypeLiteral && acl.resourceName == "*" {
+				return false
+			}
+			denies = append(denies, acl)
+		case kmsg.ACLPermissionTypeAllow:
+			allows = append(allows, acl)
+		}
+	}
+	for _, al := range allows {
+		literal := al.pattern == kmsg.ACLResourcePatternTypeLiteral
+		if literal && al.resourceName == "*" {
+			return true
+		}
+		if !literal && al.pattern != kmsg.ACLResourcePatternTypePrefixed {
+			continue
+		}
+		dominated := false
+		for _, d := range denies {
+			switch d.pattern {
+			case kmsg.ACLResourcePatternTypeLiteral:
+				dominated = literal && d.resourceName == al.resourceName
+			case kmsg.ACLResourcePatternTypePrefixed:
+				dominated = d.resourceName != "" && strings.HasPrefix(al.resourceName, d.resourceName)
+			}
+			if dominated {
+				break
+			}
+		}
+		if !dominated {
 			return true
 		}
 	}
